@@ -50,6 +50,24 @@ def run(ctx):
         finally:
             for b in burners:
                 b.kill()
+        # deeper searches (engine only, no model at this depth): twice in one process and once more in a second process
+        deep = ["8/8/1p4p1/p1p2k1p/P2npP1P/4K1P1/1P6/3R4 w - - 6 54 |  | d%d" % (10 if ctx["tier"] == "quick" else 11),
+                "r3k2r/p1ppqpb1/bn2pnp1/3PN3/1p2P3/2N2Q1p/PPPBBPPP/R3K2R w KQkq - 0 1 |  | d%d" % (5 if ctx["tier"] == "quick" else 7)]
+        dinp = "".join(x + "\n" for x in deep)
+        sigs = []
+        for _ in range(2):
+            rc, so, se = C.driver(["search"], dinp + dinp, timeout=2400)
+            res = [l for l in so.splitlines() if l.startswith("RESULT ")]
+            sigs.append([(x.split('"best":')[1].split(',"writes"')[0]) for x in res])
+        flat = sigs[0] + sigs[1]
+        for k2 in range(len(deep)):
+            vals2 = set(flat[k2::len(deep)])
+            if len(vals2) != 1:
+                rp = C.write_replay(prop, {"kind": "a deep fixed-depth search from an empty cache gave different results on repetition",
+                                           "case": deep[k2], "results": sorted(vals2),
+                                           "replay_cmd": "printf '%s\\n%s\\n' | %s verif search | grep RESULT | cut -c1-120" % (deep[k2], deep[k2], C.ENGINE)})
+                violations.append({"replay": rp})
+        cov["deep_repeat_searches"] = len(flat)
         cov["repeat_runs"] = runs
         if ctx["tier"] == "thorough":
             totals = []
